@@ -75,17 +75,28 @@ Fixpoint fill_loop (cnt i : nat) (n : nm) (b : buf) (v : V) : res (buf * list ev
   end.
 
 (* for (i = i0; i < i0+cnt; i++) if (a[i] != b[i]) return false;  return true;
-   element comparison reads a[i] first, then b[i] *)
-Fixpoint eq_loop (cnt i : nat) (an bn : nm) (a b : buf) : res (bool * list ev) :=
+   element comparison is the element type's operator== ([veq], applied as a[i] == b[i]; it need not be
+   reflexive, symmetric or bitwise); it reads a[i] first, then b[i] *)
+Fixpoint eq_loop (veq : V -> V -> bool) (cnt i : nat) (an bn : nm) (a b : buf) : res (bool * list ev) :=
   match cnt with
   | O => Ok (true, [])
   | S c =>
     bind (rd a i) (fun x =>
     bind (rd b i) (fun y =>
-    if N.eqb x y then
-      bind (eq_loop c (S i) an bn a b) (fun '(r, e) => Ok (r, EUse (an i) :: EUse (bn i) :: e))
+    if veq x y then
+      bind (eq_loop veq c (S i) an bn a b) (fun '(r, e) => Ok (r, EUse (an i) :: EUse (bn i) :: e))
     else Ok (false, [EUse (an i); EUse (bn i)])))
   end.
+
+(* Allocator instances.  A container holds an allocator by value; the scripts create the container variables on
+   different instances of a stateful allocator.  The block that instance [a] hands out as the [b]-th allocation of
+   a script is named [enc a b]; a release through instance [a] names the block [reenc a blk], which is the block's
+   own name exactly when [a] is the instance that handed it out. *)
+Definition NINST : nat := 4.
+Definition enc (a b : nat) : nat := b * NINST + a.
+Definition reenc (a blk : nat) : nat := enc a (blk / NINST).
+(* allocator.free(p) through instance a: nothing for a null pointer *)
+Definition free_ev (a blk : nat) : list ev := if Nat.eqb blk 0 then [] else [EFree (reenc a blk)].
 
 (* observation used by the drivers: the first n slots, None where a slot is raw/outside *)
 Definition peek (b : buf) (i : nat) : option V :=
